@@ -10,7 +10,7 @@ use std::path::{Path, PathBuf};
 use std::process::{Command, Stdio};
 use vmodel::{Grammar, Rx};
 
-pub const BATCH_SIZE: usize = 100;
+pub const BATCH_SIZE: usize = 50;
 
 pub struct Generated {
     pub grammar: Grammar,
@@ -215,7 +215,12 @@ pub mod {name} {{
                 obs.nodes = copy_nodes(&cst.data.nodes);
                 obs.spans = cst.data.spans.iter().map(|s| (s.start, s.end)).collect();
                 obs.diags = diags.iter().map(|(s, m)| (s.start, s.end, m.clone())).collect();
-                walk(&cst, NodeRef::ROOT, 0, &mut obs.api);
+                let mut api = vec![];
+                let w = std::panic::catch_unwind(std::panic::AssertUnwindSafe(|| walk(&cst, NodeRef::ROOT, 0, &mut api)));
+                if let Err(p) = w {{
+                    obs.walk_panic = Some(p.downcast_ref::<String>().cloned().or_else(|| p.downcast_ref::<&str>().map(|s| s.to_string())).unwrap_or_else(|| "panic".to_string()));
+                }}
+                obs.api = api;
                 obs
             }}));
             let mut obs = match res {{
@@ -258,8 +263,23 @@ pub struct BatchPaths {
 pub fn batch_paths() -> BatchPaths {
     let exe = std::env::current_exe().expect("current_exe");
     let target = exe.parent().unwrap().to_path_buf();
+    // the newest libvexec rlib cargo produced (the uplifted copy in target/release is only refreshed when
+    // vexec itself is a root of the build)
+    let mut newest: Option<(std::time::SystemTime, PathBuf)> = None;
+    if let Ok(rd) = std::fs::read_dir(target.join("deps")) {
+        for e in rd.flatten() {
+            let name = e.file_name().to_string_lossy().to_string();
+            if name.starts_with("libvexec-") && name.ends_with(".rlib") {
+                if let Ok(m) = e.metadata().and_then(|m| m.modified()) {
+                    if newest.as_ref().is_none_or(|(t, _)| m > *t) {
+                        newest = Some((m, e.path()));
+                    }
+                }
+            }
+        }
+    }
     BatchPaths {
-        vexec_rlib: target.join("libvexec.rlib"),
+        vexec_rlib: newest.map(|(_, p)| p).unwrap_or_else(|| target.join("libvexec.rlib")),
         deps: target.join("deps"),
         cache: vcommon::verif_dir().join(".cache").join("batches"),
         target,
@@ -676,6 +696,9 @@ pub fn collect(prop: &str, out: &BOutcome, rep: &mut vcommon::Report) -> Value {
 /// Coarse structural class of a grammar used in violation keys (so that one defect manifesting on thousands
 /// of grammars of one shape gets one key, while another shape gets another).
 pub fn shape_class(g: &Grammar) -> String {
+    if g.hidden_left_recursion() {
+        return "hidden-left-recursion".to_string();
+    }
     let mut f = vec![];
     let has = |p: &dyn Fn(&Rx) -> bool| g.contains(p);
     if has(&|r| matches!(r, Rx::Choice(_))) {
